@@ -490,21 +490,16 @@ def isDec (v : V) : Bool :=
   | .dec _ _ => true
   | _ => false
 
-def isEmptyArr (v : V) : Bool :=
-  match v with
-  | .arr [] => true
-  | _ => false
-
 /-
   `ex` ("exclude the known deviations"): with `ex = false` the predicates below are the core domain
-  exactly as DESIGN §8.2 words it. The real code (and the model) DEVIATES from §8.3 at six kinds of
-  points inside that domain (all observed on /repo by stream `specmatch`, see Props/C10Spec.lean);
-  `ex = true` removes exactly those points, which gives the domain on which agreement is PROVED:
-   D1 `$type` naming null (matches absent fields);  D2 `$exists` over a fan-out whose candidates are
-   all empty arrays;  D3 `$size` below two fan-outs;  D4 `$elemMatch` in field form on array elements
-   that are not documents;  D5 `$all` over a fan-out with array-valued candidates;  D6 `$exists`
-   with a Decimal128 argument;  D7 `$all` with an array member (next to other members) on a path
-   that does not fan out.
+  of DESIGN §8.2. The real code (and the model) still DEVIATES from §8.3 at two kinds of points
+  inside that domain (observed on /repo by stream `specmatch`, recorded as known findings):
+   D3 `$size` below two fan-outs;  D5 `$all` over a fan-out with array-valued candidates.
+  `ex = true` removes exactly those points, which gives the domain on which agreement is PROVED.
+  (Former deviations D1 `$type` null on absent fields, D2 `$exists` over fan-outs reaching only
+  empty arrays and D4 `$elemMatch` field form on non-document elements were fixed in the code;
+  D6 Decimal128 `$exists` arguments and D7 `$all` with array members are domain restrictions of
+  §8.2(4) and are excluded from `core` itself.)
 -/
 mutual
 /-- restrictions (2) and (4) on one condition for path `p` below `root`; `fo`: the path fans out -/
@@ -513,18 +508,19 @@ def coreC (ex : Bool) (root : V) (p : Path) (fo : Bool) : Cond → Bool
   | .ne v => !isRegex v && (!fo || scalarOperand v)
   | .in_ vs => vs.all (fun v => !isRegex v) && (!fo || vs.all scalarOperand)
   | .nin vs => vs.all (fun v => !isRegex v) && (!fo || vs.all scalarOperand)
-  | .exists_ arg => !ex || (!isDec arg && (!fo || (cand root p).all fun c => !isEmptyArr c.1))
-  | .type _ ts => (!fo || scalarTypes ts) && (!ex || !ts.contains 0x0A)
+  | .exists_ arg => !isDec arg
+  | .type _ ts => !fo || scalarTypes ts
   | .size _ => !ex || !fans2 root p
   | .all vs => vs.all (fun v => !isRegex v && !(match v with
                   | .doc ((k, _) :: _) => k == "$elemMatch"
                   | _ => false)) && (!fo || vs.all scalarOperand)
-              && (!ex || (if fo then (cand root p).all fun c => !c.1.isArr else vs.all fun v => !v.isArr))
+              && (fo || vs.all fun v => !v.isArr)
+              && (!ex || !fo || (cand root p).all fun c => !c.1.isArr)
   | .mod _ _ => (leafsAt root p).all fun l => match l with | .dec _ _ => false | _ => true
   | .bits _ ps => ps.all (· < 64)
   | .not cs => coreCs ex root p fo cs
   | .elemOps cs => !fo && itemSplitOK "" && ((cand root p).flatMap fun c => elemsOf c.1).all fun x => coreCs ex x [] false cs
-  | .elemFields fcs => !fo && fcs.all (fun fc => itemSplitOK fc.key) && ((cand root p).flatMap fun c => elemsOf c.1).all fun x => (!ex || x.isDoc) && coreFCs ex x fcs
+  | .elemFields fcs => !fo && fcs.all (fun fc => itemSplitOK fc.key) && ((cand root p).flatMap fun c => elemsOf c.1).all fun x => coreFCs ex x fcs
 def coreCs (ex : Bool) (root : V) (p : Path) (fo : Bool) : List Cond → Bool
   | [] => true
   | c :: cs => coreC ex root p fo c && coreCs ex root p fo cs
@@ -567,7 +563,7 @@ def outside (d q : Doc) : Option String := outsideX false d q
 /-- §8.2: the core domain as a decidable test -/
 def core (d q : Doc) : Bool := (outside d q).isNone
 
-/-- the core domain minus the six known deviation points D1–D6: where agreement is proved -/
+/-- the core domain minus the two known deviation points D3 and D5: where agreement is proved -/
 def coreProved (d q : Doc) : Bool := (outsideX true d q).isNone
 
 end Lungo.Spec
